@@ -189,11 +189,21 @@ pub fn judge(case: &Case) -> Vec<Fail> {
 }
 
 fn judge_with(case: &Case, robot: &Arc<KinematicsWithShape>, observe: &mut dyn FnMut(usize, &SimOut<Vec<QObs>>)) -> Vec<Fail> {
+    judge_full(case, robot, observe, &mut |_| {})
+}
+
+fn judge_full(
+    case: &Case,
+    robot: &Arc<KinematicsWithShape>,
+    observe: &mut dyn FnMut(usize, &SimOut<Vec<QObs>>),
+    stats: &mut dyn FnMut(&[Brute]),
+) -> Vec<Fail> {
     let oc = OracleCell::new(&case.cell);
     let own: Vec<Brute> = case.qs.iter().map(|q| oracle::brute_q(&oc, q, &case.cell.safety)).collect();
     let near: Option<Vec<Brute>> = case.near.as_ref().map(|t| case.qs.iter().map(|q| oracle::brute_q(&oc, q, t)).collect());
     let mut fails = Vec::new();
     let mut all_obs: Vec<Option<Vec<QObs>>> = Vec::new();
+    stats(&own);
     for (ci, cfg) in case.cfgs.iter().enumerate() {
         let out = execute(robot, case, cfg);
         observe(ci, &out);
@@ -450,6 +460,7 @@ pub fn gen_case(seed: u64, shard: u64, run: u64, t: &Tier) -> (Case, Vec<Relatio
         limits: LimitKind::None,
         ctor: Ctor::Direct,
         touch_only: false,
+        sparse: knobs.chance(0.5),
     };
     let mut cell = gen::gen_robot(&mut w, &k);
     if t.stl_every > 0 && run % t.stl_every as u64 == 0 {
@@ -459,7 +470,7 @@ pub fn gen_case(seed: u64, shard: u64, run: u64, t: &Tier) -> (Case, Vec<Relatio
     let mut qs: Vec<[f64; 6]> = (0..n_q).map(|_| gen::gen_posture(&mut w, &None)).collect();
     // pre-decide how many environment bodies there will be so that the safety table can name them
     let anchor = qs[0];
-    cell.safety = gen::gen_safety(&mut w, cell.tool.is_some(), cell.base.is_some(), 4, false);
+    cell.safety = gen::gen_safety(&mut w, cell.tool.is_some(), cell.base.is_some(), 4, false, k.sparse);
     let rels = gen::add_environment(&mut w, &mut cell, &anchor, &k);
     // entries naming environment bodies that do not exist are harmless but pointless: drop them
     let n_env = cell.env.len();
@@ -472,7 +483,8 @@ pub fn gen_case(seed: u64, shard: u64, run: u64, t: &Tier) -> (Case, Vec<Relatio
         qs.push(q);
     }
     let near = if w.chance(0.6) {
-        let mut n = gen::gen_safety(&mut w, cell.tool.is_some(), cell.base.is_some(), n_env, false);
+        let near_sparse = k.sparse && w.chance(0.7);
+        let mut n = gen::gen_safety(&mut w, cell.tool.is_some(), cell.base.is_some(), n_env, false, near_sparse);
         n.special.retain(|s| (s.0 as usize) < ENV0 + n_env && (s.1 as usize) < ENV0 + n_env);
         Some(n)
     } else {
@@ -499,7 +511,8 @@ pub fn run(tier_name: &str, seed: u64) -> i32 {
             let robot = Arc::new(case.cell.build_robot());
             let scen_hash = simctx::name_hash(&serde_json::to_string(&(&case.cell, &case.near, &case.qs)).unwrap());
             let mut sample: Option<Value> = None;
-            let fails = judge_with(&case, &robot, &mut |ci, out| {
+            let mut pair_stats: Vec<(String, u64)> = Vec::new();
+            let fails = judge_full(&case, &robot, &mut |ci, out| {
                 tally.evaluations += 1;
                 let c = &out.counters;
                 tally.bump("sched_steps", c.steps);
@@ -547,7 +560,39 @@ pub fn run(tier_name: &str, seed: u64) -> i32 {
                         }));
                     }
                 }
+            }, &mut |brutes: &[Brute]| {
+                for b in brutes {
+                    let mut any = false;
+                    for p in &b.pairs {
+                        let class = match (p.a, p.b) {
+                            (a, b2) if a < 6 && b2 < 6 => "link_link",
+                            (a, b2) if a < 6 && b2 == J_TOOL => "link_tool",
+                            (a, b2) if a < 6 && b2 == J_BASE => "link_base",
+                            (a, b2) if a == J_TOOL && b2 == J_BASE => "tool_base",
+                            (a, _) if a == J_TOOL => "tool_env",
+                            _ => "link_env",
+                        };
+                        pair_stats.push((format!("oracle_pairs_{class}"), 1));
+                        if p.dont_care {
+                            pair_stats.push(("oracle_pairs_dont_care".into(), 1));
+                        } else if p.collide {
+                            any = true;
+                            pair_stats.push((format!("oracle_pairs_{class}_colliding"), 1));
+                        }
+                        if p.r <= NEVER {
+                            pair_stats.push(("oracle_pairs_exempt".into(), 1));
+                        } else if p.r == 0.0 {
+                            pair_stats.push(("oracle_pairs_touch_only".into(), 1));
+                        } else if !p.dont_care && (p.dist - p.r).abs() < 0.012 {
+                            pair_stats.push(("oracle_pairs_within_12mm_of_threshold".into(), 1));
+                        }
+                    }
+                    pair_stats.push((if any { "oracle_postures_colliding" } else { "oracle_postures_free" }.into(), 1));
+                }
             });
+            for (k, v) in pair_stats {
+                tally.bump(&k, v);
+            }
             if let Some(s) = sample {
                 if tally.samples.len() < 2 {
                     tally.samples.push(s);
